@@ -189,4 +189,46 @@ theorem openpose_short_component (sc : Scalar S) (sizes : List Nat) (frames : Li
   rw [List.getD_eq_getElem?_getD (l := triplesOf (person.getD c [])), List.getElem?_eq_none hshort]
   rfl
 
+/-- **the loops compute the closed form**: for a person whose lists fit the header (no list longer than its component), the row the loops leave is, cell by cell,
+    what `opCell` reads off the lists -/
+theorem loopPerson_cell (sc : Scalar S) (sizes : List Nat) (person : List (List S)) (hl : person.length = sizes.length)
+    (hdom : ∀ ns ∈ person.zip sizes, (triplesOf ns.1).length ≤ ns.2) (k : Nat) :
+    (loopPerson (sc.zero, sc.zero, sc.zero) sizes person).getD k (sc.zero, sc.zero, sc.zero) =
+      match locate sizes k with
+      | some (c, j) => (triplesOf (person.getD c [])).getD j (sc.zero, sc.zero, sc.zero)
+      | none => (sc.zero, sc.zero, sc.zero) := by
+  unfold loopPerson
+  rw [loop_getD (sc.zero, sc.zero, sc.zero) person sizes _ 0 k hl hdom (by simp)]
+  simp only [Nat.not_lt_zero, if_false, Nat.sub_zero]
+  have hrep : (List.replicate sizes.sum (sc.zero, sc.zero, sc.zero)).getD k (sc.zero, sc.zero, sc.zero) = (sc.zero, sc.zero, sc.zero) := by
+    simp [List.getD_eq_getElem?_getD, List.getElem?_replicate]
+    split <;> rfl
+  cases hloc : locate sizes k with
+  | none => simp only [hrep]
+  | some cj =>
+    obtain ⟨c, j⟩ := cj
+    simp only [hrep]
+    split
+    · rfl
+    · rename_i hj
+      have hj' : (triplesOf (person.getD c [])).length ≤ j := Nat.le_of_not_lt hj
+      rw [List.getD_eq_getElem?_getD (l := triplesOf (person.getD c [])), List.getElem?_eq_none hj']
+      rfl
+
+/-- hence the loaded body is what the loops write: cell `(f, p, k)` of `loadOpenpose` is cell `k` of the looped row of frame `f`'s person `p` -/
+theorem opCell_eq_loop (sc : Scalar S) (sizes : List Nat) (frames : List (OPFrame S)) (fr : OPFrame S) (f p k : Nat) (person : List (List S))
+    (hfind : frames.find? (·.id == f) = some fr) (hperson : fr.people[p]? = some person) (hl : person.length = sizes.length)
+    (hdom : ∀ ns ∈ person.zip sizes, (triplesOf ns.1).length ≤ ns.2) :
+    opCell sc sizes frames f p k = (loopPerson (sc.zero, sc.zero, sc.zero) sizes person).getD k (sc.zero, sc.zero, sc.zero) := by
+  rw [loopPerson_cell sc sizes person hl hdom k]
+  unfold opCell
+  rw [hfind]; simp only [hperson]
+  cases locate sizes k with
+  | none => rfl
+  | some cj => rfl
+
+/-! the domain hypothesis is needed: a list longer than its component spills into the next component's cells (what the loops do; `loadOpenpose` refuses such input) -/
+example : loopPerson (0, 0, 0) [1, 1] [[1, 2, 3, 4, 5, 6], []] = [(1, 2, 3), (4, 5, 6)] := by decide
+example : loopPerson (0, 0, 0) [2, 1] [[], [7, 8, 9]] = [(0, 0, 0), (0, 0, 0), (7, 8, 9)] := by decide
+
 end PoseVerif.Props.C19
